@@ -167,10 +167,12 @@ func (rn *runner) codecCase(k int, r *prng.R) {
 	var b []byte
 	var cuts []int
 	var v any
+	var want0 string
 	if c.rawGen != nil {
 		b, cuts = c.rawGen(g)
 	} else {
 		v = c.gen(g)
+		want0 = c.showFn()(v) // before encoding (an encoder must not change the value)
 		var err error
 		b, cuts, err = c.encSeg(v)
 		if err != nil {
@@ -221,7 +223,10 @@ func (rn *runner) codecCase(k int, r *prng.R) {
 	rep := rn.bytesCase(k, c, b)
 	if mut == mutNone && !g.invalid && c.rawGen == nil {
 		// round trip of a valid value through the real encoder and decoder
-		want := c.showFn()(v)
+		want := want0
+		if after := c.showFn()(v); after != want0 {
+			o.Fail(c.name+"-encode-mutates", k, "encoding changes the value being encoded: %s -> %s", trunc(want0, 200), trunc(after, 200))
+		}
 		exp := fmt.Sprintf("ok rest=0 enc=%s ", hx.Hex(b))
 		switch {
 		case !strings.HasPrefix(rep.obs, "ok"):
